@@ -55,6 +55,26 @@ pub fn peer_crypto_view<P: Payload>(pc: &PeerCrypto<P>) -> PeerCryptoView {
     }
 }
 
+/// what a `Crypto` advertises: the plain flag and (wire id of the cipher, measured speed) in list order
+pub fn crypto_algos(c: &Crypto) -> (bool, Vec<(u8, f32)>) {
+    let ids = c
+        .algorithms
+        .algorithm_speeds
+        .iter()
+        .map(|(a, s)| {
+            let id = if *a == &aead::AES_128_GCM {
+                1
+            } else if *a == &aead::AES_256_GCM {
+                2
+            } else {
+                3
+            };
+            (id, *s)
+        })
+        .collect();
+    (c.algorithms.allow_unencrypted, ids)
+}
+
 pub fn key_pair_from_seed(seed: &[u8]) -> Arc<Ed25519KeyPair> {
     Arc::new(Ed25519KeyPair::from_seed_unchecked(seed).unwrap())
 }
